@@ -29,7 +29,39 @@ import (
 // combining marks and C0/C1 control characters 0, an invalid UTF-8 byte is one
 // character displayed as U+FFFD (1 column).
 
+// Width overrides installed for the current phase (wcwidth.Override is
+// process-global, so phases run one after the other; the map is only written
+// between phases). The reference width honours the same overrides.
+var (
+	c34Ov       map[rune]int
+	c34OvTag    string // "" or e.g. "@x=2"
+	c34RepMu    sync.Mutex
+	c34Reported = map[string]bool{}
+)
+
+// c34Violate reports a violation. In an override phase a key already reported
+// without overrides is not repeated; a key seen only under an override is
+// suffixed with the override setting.
+func c34Violate(c *vk.Ctx, key, msg string, replay any) {
+	c34RepMu.Lock()
+	if c34OvTag == "" {
+		c34Reported[key] = true
+	} else if c34Reported[key] {
+		c34RepMu.Unlock()
+		return
+	}
+	c34RepMu.Unlock()
+	if c34OvTag != "" {
+		key += c34OvTag
+		msg = "with wcwidth.Override " + c34OvTag[1:] + ": " + msg
+	}
+	c.Violate(key, msg, replay)
+}
+
 func c34RuneWidth(r rune) int {
+	if w, ok := c34Ov[r]; ok {
+		return w
+	}
 	switch {
 	case r == '好' || r == '😀':
 		return 2
@@ -84,28 +116,27 @@ func c34SpecTrim(s string, wmax int) (string, bool) {
 
 var c34StrAlpha = []string{"a", "好", "\u0301", "\t", "\u0080", "😀", "\x80", "\n"}
 
-func c34PartWcwidth(c *vk.Ctx) {
-	n := vk.Pick(c, 5, 7)
+func c34PartWcwidth(c *vk.Ctx, alpha []string, n int) {
 	maxW := 9
 	// the width table itself, for the symbols used
-	for _, s := range c34StrAlpha {
+	for _, s := range alpha {
 		r, _ := utf8.DecodeRuneInString(s)
 		if got, want := wcwidth.OfRune(r), c34RuneWidth(r); got != want {
-			c.Violate("ofrune-table", fmt.Sprintf("wcwidth.OfRune(%q) = %d, documented class of the character gives %d", r, got, want), s)
+			c34Violate(c, "ofrune-table", fmt.Sprintf("wcwidth.OfRune(%q) = %d, documented class of the character gives %d", r, got, want), s)
 		}
-		c.Case("ofrune/" + s)
+		c.Case("ofrune/" + s + c34OvTag)
 	}
-	c.EnumSeqs(len(c34StrAlpha), n, func(l *vk.Local, idx []int) {
-		s := vk.Join(c34StrAlpha, idx)
+	c.EnumSeqs(len(alpha), n, func(l *vk.Local, idx []int) {
+		s := vk.Join(alpha, idx)
 		sw := c34Width(s)
 		if got := wcwidth.Of(s); got != sw {
-			c.Violate("of-sum", fmt.Sprintf("wcwidth.Of(%q) = %d, sum of character widths is %d", s, got, sw), s)
+			c34Violate(c, "of-sum", fmt.Sprintf("wcwidth.Of(%q) = %d, sum of character widths is %d", s, got, sw), s)
 		}
 		for w := 0; w <= maxW; w++ {
 			want, _ := c34SpecTrim(s, w)
 			var got string
 			if site, p := c34Try(func() { got = wcwidth.Trim(s, w) }); p != "" {
-				c.Violate("panic:"+site, fmt.Sprintf("wcwidth.Trim(%q, %d): %s", s, w, p), s)
+				c34Violate(c, "panic:"+site, fmt.Sprintf("wcwidth.Trim(%q, %d): %s", s, w, p), s)
 			} else if got != want {
 				key := "trim-not-longest-prefix"
 				switch {
@@ -116,29 +147,29 @@ func c34PartWcwidth(c *vk.Ctx) {
 				case c34Width(got) > w:
 					key = "trim-too-wide"
 				}
-				c.Violate(key, fmt.Sprintf("wcwidth.Trim(%q, %d) = %q (width %d), want %q (width %d)", s, w, got, c34Width(got), want, c34Width(want)), s)
+				c34Violate(c, key, fmt.Sprintf("wcwidth.Trim(%q, %d) = %q (width %d), want %q (width %d)", s, w, got, c34Width(got), want, c34Width(want)), s)
 			}
 			var f string
 			if site, p := c34Try(func() { f = wcwidth.Force(s, w) }); p != "" {
-				c.Violate("panic:"+site, fmt.Sprintf("wcwidth.Force(%q, %d): %s", s, w, p), s)
+				c34Violate(c, "panic:"+site, fmt.Sprintf("wcwidth.Force(%q, %d): %s", s, w, p), s)
 			} else {
 				if fw := c34Width(f); fw != w {
-					c.Violate("force-wrong-width", fmt.Sprintf("wcwidth.Force(%q, %d) = %q has display width %d", s, w, f, fw), s)
+					c34Violate(c, "force-wrong-width", fmt.Sprintf("wcwidth.Force(%q, %d) = %q has display width %d", s, w, f, fw), s)
 				} else if exp := want + strings.Repeat(" ", w-c34Width(want)); f != exp {
-					c.Violate("force-not-trim-plus-padding", fmt.Sprintf("wcwidth.Force(%q, %d) = %q, want trimmed text plus padding %q", s, w, f, exp), s)
+					c34Violate(c, "force-not-trim-plus-padding", fmt.Sprintf("wcwidth.Force(%q, %d) = %q, want trimmed text plus padding %q", s, w, f, exp), s)
 				}
 			}
 			// TrimEachLine: every line trimmed by the same rule.
 			var tl string
 			if site, p := c34Try(func() { tl = wcwidth.TrimEachLine(s, w) }); p != "" {
-				c.Violate("panic:"+site, fmt.Sprintf("wcwidth.TrimEachLine(%q, %d): %s", s, w, p), s)
+				c34Violate(c, "panic:"+site, fmt.Sprintf("wcwidth.TrimEachLine(%q, %d): %s", s, w, p), s)
 			} else {
 				lines := strings.Split(s, "\n")
 				for i := range lines {
 					lines[i], _ = c34SpecTrim(lines[i], w)
 				}
 				if exp := strings.Join(lines, "\n"); tl != exp {
-					c.Violate("trimeachline", fmt.Sprintf("wcwidth.TrimEachLine(%q, %d) = %q, want %q", s, w, tl, exp), s)
+					c34Violate(c, "trimeachline", fmt.Sprintf("wcwidth.TrimEachLine(%q, %d) = %q, want %q", s, w, tl, exp), s)
 				}
 			}
 			cls := ""
@@ -149,9 +180,12 @@ func c34PartWcwidth(c *vk.Ctx) {
 			} else if sw < w {
 				cls = fmt.Sprintf("trim/whole/pad/len%d", len(idx))
 			}
+			if cls != "" {
+				cls += c34OvTag
+			}
 			l.Case(cls)
 		}
-		if len(idx) == 5 && idx[0] == 1 && idx[1] == 2 && idx[2] == 3 && idx[3] == 4 && idx[4] == 5 {
+		if c34OvTag == "" && len(idx) == 5 && idx[0] == 1 && idx[1] == 2 && idx[2] == 3 && idx[3] == 4 && idx[4] == 5 {
 			c.Sample(s)
 		}
 	})
@@ -316,10 +350,11 @@ type c34Found struct {
 }
 
 func c34Run[S any](c *vk.Ctx, f c34Family[S]) {
-	c.Set("specs_"+f.name, len(f.specs))
-	if len(f.specs) > 0 {
+	c.Set("specs_"+f.name+c34OvTag, len(f.specs))
+	if len(f.specs) > 0 && c34OvTag == "" {
 		c.Sample(f.desc(f.specs[len(f.specs)*2/3]))
 	}
+	cname := f.name + c34OvTag
 	var mu sync.Mutex
 	found := map[string]c34Found{}
 	c.Parallel(len(f.specs), func(l *vk.Local, i int) {
@@ -328,7 +363,7 @@ func c34Run[S any](c *vk.Ctx, f c34Family[S]) {
 			for _, h := range f.heights {
 				kind, msg, buf := c34Eval(func() tk.Renderer { return f.build(s) }, w, h)
 				if kind == "" {
-					l.Case(fmt.Sprintf("%s/%s/w%d/h%d/%s", f.name, f.class(s), w, h, c34Shape(buf, w)))
+					l.Case(fmt.Sprintf("%s/%s/w%d/h%d/%s", cname, f.class(s), w, h, c34Shape(buf, w)))
 					continue
 				}
 				key := ""
@@ -362,7 +397,7 @@ func c34Run[S any](c *vk.Ctx, f c34Family[S]) {
 						}
 					}
 					if dup {
-						l.Case(fmt.Sprintf("%s/VIOL-also-in-simpler-state/%s", f.name, kind))
+						l.Case(fmt.Sprintf("%s/VIOL-also-in-simpler-state/%s", cname, kind))
 						continue
 					}
 					if !byFunc {
@@ -374,7 +409,7 @@ func c34Run[S any](c *vk.Ctx, f c34Family[S]) {
 					found[key] = c34Found{i, w, h, msg, f.desc(s)}
 				}
 				mu.Unlock()
-				l.Case(fmt.Sprintf("%s/VIOL/%s", f.name, kind))
+				l.Case(fmt.Sprintf("%s/VIOL/%s", cname, kind))
 			}
 		}
 	})
@@ -386,7 +421,7 @@ func c34Run[S any](c *vk.Ctx, f c34Family[S]) {
 	sort.Strings(keys)
 	for _, k := range keys {
 		v := found[k]
-		c.Violate(k, fmt.Sprintf("%s rendered at width %d height %d: %s", v.desc, v.w, v.h, v.msg), v.desc)
+		c34Violate(c, k, fmt.Sprintf("%s rendered at width %d height %d: %s", v.desc, v.w, v.h, v.msg), v.desc)
 	}
 }
 
@@ -458,13 +493,13 @@ func (r c34BB) Render(width, height int) *term.Buffer {
 	return term.NewBufferBuilder(width).SetEagerWrap(r.eager).WriteStyled(ui.T(c34Fix(r.s, r.noCtrl))).Buffer()
 }
 
-func c34PartBufferBuilder(c *vk.Ctx) {
+func c34PartBufferBuilder(c *vk.Ctx, alpha []string, n int, widths []int) {
 	var specs []c34BB
-	for _, s := range c34Strings(c34WidgetAlpha, vk.Pick(c, 5, 7)) {
+	for _, s := range c34Strings(alpha, n) {
 		specs = append(specs, c34BB{s, false, false}, c34BB{s, true, false})
 	}
 	c34Run(c, c34Family[c34BB]{
-		name: "bufferbuilder", group: "bufferbuilder", specs: specs, widths: c34Sizes(2, vk.Pick(c, 7, 9)), heights: []int{1 << 20},
+		name: "bufferbuilder", group: "bufferbuilder", specs: specs, widths: widths, heights: []int{1 << 20},
 		build: func(s c34BB) tk.Renderer { return s },
 		desc:  func(s c34BB) string { return fmt.Sprintf("BufferBuilder.WriteStyled(%q) eagerWrap=%v", s.s, s.eager) },
 		class: func(s c34BB) string { return fmt.Sprintf("e%v", s.eager) },
@@ -483,9 +518,9 @@ type c34LA struct {
 	noCtrl bool
 }
 
-func c34PartLabel(c *vk.Ctx, widths, heights []int) {
+func c34PartLabel(c *vk.Ctx, alpha []string, n int, widths, heights []int) {
 	var specs []c34LA
-	for _, s := range c34Strings(c34WidgetAlpha, vk.Pick(c, 4, 6)) {
+	for _, s := range c34Strings(alpha, n) {
 		specs = append(specs, c34LA{s, false})
 	}
 	c34Run(c, c34Family[c34LA]{
@@ -546,9 +581,9 @@ func c34CodeAreaSpec(s c34CA) tk.CodeAreaSpec {
 	return spec
 }
 
-func c34CodeAreaSpecs(n int, prompts, rprompts []string) []c34CA {
+func c34CodeAreaSpecs(alpha []string, n int, prompts, rprompts []string) []c34CA {
 	var specs []c34CA
-	for _, content := range c34Strings(c34WidgetAlpha, n) {
+	for _, content := range c34Strings(alpha, n) {
 		for dot := 0; dot <= len(content); dot++ {
 			if !c34Boundary(content, dot) {
 				continue
@@ -567,10 +602,8 @@ func c34CodeAreaSpecs(n int, prompts, rprompts []string) []c34CA {
 	return specs
 }
 
-func c34PartCodeArea(c *vk.Ctx, widths, heights []int) {
-	prompts := []string{"", ">", "好", "a\n> ", "好好好好"}
-	rprompts := []string{"", "<", "好", "a\tb", "x\ny"}
-	specs := c34CodeAreaSpecs(vk.Pick(c, 3, 4), prompts, rprompts)
+func c34PartCodeArea(c *vk.Ctx, alpha []string, n int, prompts, rprompts []string, widths, heights []int) {
+	specs := c34CodeAreaSpecs(alpha, n, prompts, rprompts)
 	c34Run(c, c34Family[c34CA]{
 		name: "codearea", group: "codearea", specs: specs, widths: widths, heights: heights,
 		build: func(s c34CA) tk.Renderer { return tk.NewCodeArea(c34CodeAreaSpec(s)) },
@@ -598,12 +631,12 @@ type c34TV struct {
 
 var c34LinePool = []string{"", "a", "好", "a好b", "好好好好好", "abcdefghij", "\t", "a\u0301\tb"}
 
-func c34PartTextView(c *vk.Ctx, widths, heights []int) {
+func c34PartTextView(c *vk.Ctx, pool []string, n int, widths, heights []int) {
 	var specs []c34TV
-	for _, idx := range c34Lists(len(c34LinePool), vk.Pick(c, 3, 4)) {
+	for _, idx := range c34Lists(len(pool), n) {
 		lines := make([]string, len(idx))
 		for i, j := range idx {
-			lines[i] = c34LinePool[j]
+			lines[i] = pool[j]
 		}
 		maxScroll := len(lines)
 		if maxScroll == 0 {
@@ -749,9 +782,8 @@ func (s c34LB) clampSelected() (c34LB, bool) {
 	return s, true
 }
 
-func c34PartListBox(c *vk.Ctx, widths, heights []int) {
-	specs := c34ListBoxSpecs(c34ItemPool, 3, vk.Pick(c, []int{0, 1}, []int{0, 1, 2}), true)
-	if c.Thorough() {
+func c34PartListBox(c *vk.Ctx, specs []c34LB, widths, heights []int) {
+	if c.Thorough() && c34OvTag == "" {
 		// lists of four items over a smaller pool
 		for _, s := range c34ListBoxSpecs([]string{"a", "好好", "ab\ncd\nef", "x\ny", "\t"}, 4, []int{0, 1}, false) {
 			if len(s.items) == 4 {
@@ -922,6 +954,79 @@ func c34PartColView(c *vk.Ctx, heights []int) {
 
 // ---------------------------------------------------------------------------
 
+// ---------------------------------------------------------------------------
+// Width overrides (wcwidth.Override, the -override-wcwidth builtin).
+
+var c34Overrides = []struct {
+	r rune
+	w int
+}{{'x', 2}, {'\u00e9', 3}, {'好', 1}}
+
+// reduced alphabet of the override phases: a 1-byte, a 2-byte and a 3-byte
+// rune that can each be overridden, and a combining mark
+var c34OvAlpha = []string{"x", "\u00e9", "好", "\u0301"}
+
+// c34PartTrimWcwidth: ui.Text.TrimWcwidth ("the largest prefix of t that does
+// not exceed the given visual width") on one- and two-segment texts.
+func c34PartTrimWcwidth(c *vk.Ctx, alpha []string, n int) {
+	strs := c34Strings(alpha, n)
+	c.Parallel(len(strs), func(l *vk.Local, i int) {
+		s := strs[i]
+		for cut := 0; cut <= len(s); cut++ {
+			if !c34Boundary(s, cut) || (cut == len(s) && cut > 0) {
+				continue
+			}
+			t := ui.Concat(ui.T(s[:cut]), ui.T(s[cut:], ui.Bold))
+			for w := 0; w <= 9; w++ {
+				want, _ := c34SpecTrim(s, w)
+				var got strings.Builder
+				if site, p := c34Try(func() {
+					for _, seg := range t.TrimWcwidth(w) {
+						got.WriteString(seg.Text)
+					}
+				}); p != "" {
+					c34Violate(c, "panic:"+site, fmt.Sprintf("ui.Text{%q,%q}.TrimWcwidth(%d): %s", s[:cut], s[cut:], w, p), s)
+				} else if got.String() != want {
+					key := "text-trimwcwidth-not-longest-prefix"
+					if c34Width(got.String()) > w {
+						key = "text-trimwcwidth-too-wide"
+					}
+					c34Violate(c, key, fmt.Sprintf("ui.Text{%q,%q}.TrimWcwidth(%d) has content %q (width %d), want %q", s[:cut], s[cut:], w, got.String(), c34Width(got.String()), want), s)
+				}
+				cls := ""
+				if len(want) < len(s) {
+					cls = fmt.Sprintf("textTrim/w%d/cut-in-seg%v/left%d%s", w, len(want) >= cut, w-c34Width(want), c34OvTag)
+				}
+				l.Case(cls)
+			}
+		}
+	})
+}
+
+func c34OverridePhase(c *vk.Ctx, r rune, w int) {
+	c34Ov, c34OvTag = map[rune]int{r: w}, fmt.Sprintf("@%c=%d", r, w)
+	wcwidth.Override(r, w)
+	defer func() {
+		wcwidth.Unoverride(r)
+		c34Ov, c34OvTag = nil, ""
+	}()
+	// a widget cannot fit a character wider than its whole width
+	lo := 2
+	if w > lo {
+		lo = w
+	}
+	widths, heights := c34Sizes(lo, vk.Pick(c, 6, 8)), c34Sizes(1, 3)
+	big := vk.Pick(c, 0, 1)
+	c34PartWcwidth(c, append(append([]string{}, c34OvAlpha...), "\n"), 5+big)
+	c34PartTrimWcwidth(c, c34OvAlpha, 4+big)
+	walpha := []string{"x", "\u00e9", "好", "\n"}
+	c34PartBufferBuilder(c, walpha, 4+big, widths)
+	c34PartLabel(c, walpha, 3+big, widths, heights)
+	c34PartCodeArea(c, walpha, 2+big, []string{"", "x>"}, []string{"", "\u00e9"}, widths, heights)
+	c34PartTextView(c, []string{"", "x", "xxxx", "\u00e9\u00e9", "好好好", "x\u00e9好x"}, 2+big, widths, heights)
+	c34PartListBox(c, c34ListBoxSpecs([]string{"x", "xxxx", "\u00e9\u00e9", "好好", "x\nxx\nx"}, 2+big, []int{0, 1}, false), widths, heights)
+}
+
 func TestVerifC34(t *testing.T) {
 	c34Unknown.v = make(chan struct{}, 1)
 	vk.Run(t, "C34", "exploration", func(c *vk.Ctx) {
@@ -930,20 +1035,27 @@ func TestVerifC34(t *testing.T) {
 		c.Rule(fmt.Sprintf("(1) every string of <=%d symbols over %q x every width 0..9 for wcwidth.Trim/Force/TrimEachLine; "+
 			"(2) every string of <=%d symbols over %q written through term.BufferBuilder (eager wrap on/off) at widths %v; "+
 			"(3) every widget state from the stated pools (Label, CodeArea with prompt/rprompt/pending/tips, TextView with scrolling, ListBox vertical+horizontal with selection/first/padding/extendStyle, ComboBox, ColView of 1..%d columns) rendered fresh at every width %v x height %v; "+
-			"class = part/widget + state shape + width + height + number of lines produced + whether a line fills the width",
+			"(4) the wcwidth, ui.Text.TrimWcwidth, BufferBuilder, Label, CodeArea, TextView and ListBox families again on reduced pools over {x, é, 好, U+0301 / LF} under each width override x=2, é=3, 好=1 (wcwidth.Override set before and removed after each sequential phase; widths from max(2, overridden width)); "+
+			"class = part/widget (+ override setting) + state shape + width + height + number of lines produced + whether a line fills the width",
 			vk.Pick(c, 5, 7), c34StrAlpha, vk.Pick(c, 5, 7), c34WidgetAlpha, widths, vk.Pick(c, 3, 4), widths, heights))
 		c.Assume("display width of the alphabet symbols is taken from an independent table (ASCII 1, CJK/emoji 2, combining and control 0, invalid byte = U+FFFD 1); a cell's width is the sum over its runes",
 			"horizontal ListBox is only given single-line items (documented precondition); CodeArea dot is always at a character boundary; TextView lines contain no newline",
 			"heights >= 1 and widths >= 2 only, as the statement says; a panic in Render counts as a violation (no lines produced)",
-			"Buffer.Dot position and Buffer.Width are not judged (the statement does not mention them)")
-		c34PartWcwidth(c)
-		c34PartBufferBuilder(c)
-		c34PartLabel(c, widths, heights)
-		c34PartCodeArea(c, widths, heights)
-		c34PartTextView(c, widths, heights)
-		c34PartListBox(c, widths, heights)
+			"Buffer.Dot position and Buffer.Width are not judged (the statement does not mention them)",
+			"under a width override the reference width table uses the same override; a widget is not asked to fit a character wider than its whole width")
+		c34PartWcwidth(c, c34StrAlpha, vk.Pick(c, 5, 7))
+		c34PartTrimWcwidth(c, c34OvAlpha, vk.Pick(c, 4, 5))
+		c34PartBufferBuilder(c, c34WidgetAlpha, vk.Pick(c, 5, 7), widths)
+		c34PartLabel(c, c34WidgetAlpha, vk.Pick(c, 4, 6), widths, heights)
+		c34PartCodeArea(c, c34WidgetAlpha, vk.Pick(c, 3, 4), []string{"", ">", "好", "a\n> ", "好好好好"}, []string{"", "<", "好", "a\tb", "x\ny"}, widths, heights)
+		c34PartTextView(c, c34LinePool, vk.Pick(c, 3, 4), widths, heights)
+		c34PartListBox(c, c34ListBoxSpecs(c34ItemPool, 3, vk.Pick(c, []int{0, 1}, []int{0, 1, 2}), true), widths, heights)
 		c34PartComboBox(c, widths, heights)
 		c34PartColView(c, c34Sizes(1, 3))
+		// The same families on reduced pools under width overrides, one sequential phase per setting.
+		for _, ov := range c34Overrides {
+			c34OverridePhase(c, ov.r, ov.w)
+		}
 		if c34Unknown.Load() {
 			c.Set("runes_outside_width_table_measured_with_wcwidth", true)
 		}
